@@ -132,9 +132,9 @@ impl<'a> MtHelpers<'a> {
                     #(#sudo_methods_declarations)*
                 }
 
-                impl<SvBankT, SvApiT, SvStorageT, SvCustomT, SvWasmT, SvStakingT, SvDistrT, SvIbcT, SvGovT, #custom_msg, ContractT: super:: #interface_name > #trait_name < #mt_app, #custom_msg > for #sylvia ::multitest::Proxy<'_, #mt_app, ContractT >
+                impl<SvBankT, SvApiT, SvStorageT, SvCustomT, SvWasmT, SvStakingT, SvDistrT, SvIbcT, SvGovT, #custom_msg, SvContractT: super:: #interface_name > #trait_name < #mt_app, #custom_msg > for #sylvia ::multitest::Proxy<'_, #mt_app, SvContractT >
                 where
-                    ContractT:: #error_type : std::fmt::Debug + std::fmt::Display + Send + Sync + 'static,
+                    SvContractT:: #error_type : std::fmt::Debug + std::fmt::Display + Send + Sync + 'static,
                     #custom_msg: #sylvia ::types::CustomMsg + 'static,
                     SvCustomT: #sylvia ::cw_multi_test::Module,
                     SvWasmT: #sylvia ::cw_multi_test::Wasm<SvCustomT::ExecT, SvCustomT::QueryT>,
@@ -151,8 +151,8 @@ impl<'a> MtHelpers<'a> {
                     #mt_app : #sylvia ::cw_multi_test::Executor< #custom_msg >,
                     #where_predicates
                 {
-                    type #error_type = <ContractT as super:: #interface_name>:: #error_type ;
-                    #(type #associated_args = <ContractT as super:: #interface_name>:: #associated_args ;)*
+                    type #error_type = <SvContractT as super:: #interface_name>:: #error_type ;
+                    #(type #associated_args = <SvContractT as super:: #interface_name>:: #associated_args ;)*
 
                     #(#query_methods)*
                     #(#exec_methods)*
